@@ -928,13 +928,6 @@ func (interp *Interpreter) cfg(root *node, sc *scope, importPath, pkgName string
 			}
 
 			switch n.action {
-			case aRem:
-				n.typ = c0.typ
-			case aShl, aShr:
-				if c0.typ.untyped {
-					break
-				}
-				n.typ = c0.typ
 			case aEqual, aNotEqual:
 				n.typ = sc.getType("bool")
 				if c0.sym == nilSym || c1.sym == nilSym {
